@@ -289,6 +289,24 @@ pub fn gen(tier: &str, seed: u64) -> Gen {
         }
     }
     fams.push(("mixed integer / float comparisons and arithmetic around 2^53 and 2^63, both orders".to_string(), nm, true));
+    // division and remainder by a zero that is computed (integer and float zeros reached through
+    // mixed arithmetic, where one operand was promoted), and zero numerators of both types
+    let zeros: Vec<Term> = vec![
+        bin("-", int(5), flt("5.0")), bin("*", int(2), flt("0.0")), bin("-", flt("5.0"), int(5)), bin("*", flt("0.0"), int(7)),
+        bin("-", int(3), int(3)), bin("-", flt("1.5"), flt("1.5")), bin("+", var("vi", "-3"), flt("3.0")), bin("-", var("vf", "2.5"), flt("2.5")),
+        un("-", flt("0.0")), func("double", int(0)), func("int", flt("0.5")), bin("*", int(0), int(9)),
+    ];
+    let nums: Vec<Term> = vec![int(1), flt("1.0"), int(10), var("vi", "-3"), flt("0.0"), int(0), bin("+", int(1), flt("0.5"))];
+    let mut nd = 0;
+    for o in &["/", "%"] {
+        for a in &nums {
+            for z in &zeros {
+                cases.push(mk(&mut rng, bin(o, a.clone(), z.clone())));
+                nd += 1;
+            }
+        }
+    }
+    fams.push(("division and remainder by computed zeros of either type (mixed arithmetic with a promoted operand)".to_string(), nd, true));
     (cases, fams)
 }
 
